@@ -45,6 +45,58 @@ def run_scenarios(ctx, repeat, scenarios=None):
     return trace, res
 
 
+def signatures_of(ctx, trace, kinds, fmt="%s@%s:%s"):
+    """ClusterViewTrace on a trace of real-server scenarios -> {signature: [events]} for the given kinds."""
+    viols, n = vlib.validate_trace(ctx, "ClusterViewTrace", "ClusterViewTrace.cfg", trace, lambda l: l.startswith('{"ev":"scenario"'), chunk_events=100000)
+    lines = open(trace).read().splitlines()
+    by, other = {}, {}
+    for v in viols:
+        if v[1] not in kinds:
+            other[v[1]] = other.get(v[1], 0) + 1
+            continue
+        sc = ""
+        for x in reversed(lines[:v[0] + 1]):
+            if x.startswith('{"ev":"scenario"'):
+                sc = json.loads(x)["name"]
+                break
+        e = json.loads(lines[v[0]])
+        by.setdefault((fmt % (v[1], sc, e.get("after", e["ev"])), sc), []).append(e)
+    return by, other, lines, viols
+
+
+def reproduced(ctx, by):
+    """Real server processes on a shared machine: a failed check counts only if the scenario fails the same way when it
+    is run again, alone (DESIGN.md section 3: no verdict from what does not reproduce).  Returns the reproduced part."""
+    if not by:
+        return by
+    scs = sorted(set(sc for (_, sc) in by))
+    kinds = set(sig.split("@")[0] for (sig, _) in by)
+    trace2, _ = run_scenarios(ctx, 1, scs)
+    by2, _, _, _ = signatures_of(ctx, trace2, kinds)
+    again = set(sig for (sig, _) in by2)
+    keep = {k: v for k, v in by.items() if k[0] in again}
+    lost = sorted(k[0] for k in by if k[0] not in again)
+    if lost:
+        ctx.notes.append("failed checks that did not reproduce when the scenario was run again alone (not reported): %s" % lost)
+        ctx.cov.setdefault("unreproduced", []).extend(lost)
+        ctx.log("not reproduced on a second run of %s: %s" % (scs, lost))
+    return keep
+
+
+def reproduced_servers(ctx, by, kinds):
+    if not by:
+        return by
+    scs = sorted(set(sc for (_, sc) in by))
+    trace2, _ = run_scenarios(ctx, 1, scs)
+    by2, _, _, _ = signatures_of(ctx, trace2, set(kinds), fmt="%s@servers:%.0s%s")
+    again = set(sig for (sig, _) in by2)
+    lost = sorted(k[0] for k in by if k[0] not in again)
+    if lost:
+        ctx.notes.append("failed checks that did not reproduce when the scenario was run again alone (not reported): %s" % lost)
+        ctx.cov.setdefault("unreproduced", []).extend(lost)
+    return {k: v for k, v in by.items() if k[0] in again}
+
+
 def catalogue_replay(ctx):
     """Catalogue!Agree / SnapOK on the real storage.DatasetManager: random logs of create / delete / add-node /
     remove-node entries applied to three managers - whole log; prefix + snapshot of a later index + rest; snapshot
@@ -85,16 +137,11 @@ def real_server_kinds(ctx, scenarios, kinds, repeat=1):
     """Run real-server scenarios, validate with ClusterViewTrace and report the failed checks of the given kinds
     (for checks whose main binding is elsewhere but whose property also speaks about the running system)."""
     trace, res = run_scenarios(ctx, repeat, scenarios)
-    v, n = vlib.validate_trace(ctx, "ClusterViewTrace", "ClusterViewTrace.cfg", trace, lambda l: l.startswith('{"ev":"scenario"'), chunk_events=100000)
-    lines = open(trace).read().splitlines()
-    by = {}
-    for x in v:
-        if x[1] in kinds:
-            e = json.loads(lines[x[0]])
-            by.setdefault("%s@servers:%s" % (x[1], e.get("after", e["ev"])), []).append(e)
-    for sig in sorted(by):
-        e = by[sig][0]
-        ctx.finding(sig, "%s: %s (%d such events)" % (sig, json.dumps(e)[:500], len(by[sig])), {"event": e})
+    by, _, lines, _ = signatures_of(ctx, trace, set(kinds), fmt="%s@servers:%.0s%s")
+    by = reproduced_servers(ctx, by, kinds)
+    for (sig, sc) in sorted(by):
+        e = by[(sig, sc)][0]
+        ctx.finding(sig, "%s: %s (%d such events)" % (sig, json.dumps(e)[:500], len(by[(sig, sc)])), {"event": e})
     return lines, sum(len(x) for x in by.values())
 
 
@@ -125,28 +172,13 @@ def run_family(ctx):
     if ctx.pid == "C14":
         catalogue_replay(ctx)
     trace, res = run_scenarios(ctx, 1 if quick else 4)
-    viols, n = vlib.validate_trace(ctx, "ClusterViewTrace", "ClusterViewTrace.cfg", trace, lambda l: l.startswith('{"ev":"scenario"'), chunk_events=100000)
-    lines = open(trace).read().splitlines()
-    mine = set(KINDS[ctx.pid])
-    by = {}
-    other = {}
-    for v in viols:
-        if v[1] not in mine:
-            other[v[1]] = other.get(v[1], 0) + 1
-            continue
-        sc = ""
-        for x in reversed(lines[:v[0] + 1]):
-            if x.startswith('{"ev":"scenario"'):
-                sc = json.loads(x)["name"]
-                break
-        e = json.loads(lines[v[0]])
-        sig = "%s@%s:%s" % (v[1], sc, e.get("after", e["ev"]))
-        by.setdefault(sig, []).append(e)
+    by, other, lines, viols = signatures_of(ctx, trace, set(KINDS[ctx.pid]))
     if other:
         ctx.notes.append("failed checks of the sibling property: %s" % other)
-    for sig in sorted(by):
-        e = by[sig][0]
-        ctx.finding(sig, "%s: %s (%d such events)" % (sig, json.dumps(e)[:600], len(by[sig])), {"event": e})
+    by = reproduced(ctx, by)
+    for (sig, sc) in sorted(by):
+        e = by[(sig, sc)][0]
+        ctx.finding(sig, "%s: %s (%d such events)" % (sig, json.dumps(e)[:600], len(by[(sig, sc)])), {"event": e})
     nviews = sum(1 for x in lines if '"ev":"view"' in x)
     ctx.log("%d scenarios on real server processes, %d node views validated: %d failed checks" % (len(res), nviews, len(viols)))
     ctx.sample({"scenario": res[0][0], "events": [json.loads(x) for x in res[0][1][:10]]})
